@@ -9,7 +9,9 @@ generated compartment wired upward through '..' to a reference node of the colon
 (so that a _move must re-wire it).  A plain step that sorts last in the director's layer returns an ordinary
 update, so that the structural update is not the last one applied in its layer.
 
-Decided by the oracle only (no Coq side): see DESIGN.md section 5, C07."""
+The states handed out are judged by the oracle; the control flow that keeps the cached views current - where
+Engine._send_updates / run_steps rebuild the views relative to the applications and invocations - is logged by
+wrapping the engine's methods for the duration of a case and compared with Model/Views.v (Corr/Viewsc.v)."""
 import contextlib
 import io
 import random
@@ -153,6 +155,90 @@ def live_update(col, ops):
         struct.compartment = orig
 
 
+TRACE = []
+
+
+@contextlib.contextmanager
+def instrument():
+    """log the control skeleton of Engine._send_updates / run_steps (no change to /repo: the methods are wrapped
+    for the duration of one case): SU / SU_END around _send_updates, RS at run_steps, I at every read of a
+    cached view (Engine._process_state), A flag at every Engine.apply_update, B at every rebuild"""
+    from vivarium.core.engine import Engine
+    from vivarium.core.store import Store
+    orig = (Engine._send_updates, Engine.run_steps, Engine._process_state, Engine.apply_update,
+            Store.build_topology_views)
+    depth = [0]
+
+    def send_updates(self, update_tuples):
+        TRACE.append(['SU'])
+        try:
+            return orig[0](self, update_tuples)
+        finally:
+            TRACE.append(['SU_END'])
+
+    def run_steps(self):
+        TRACE.append(['RS'])
+        return orig[1](self)
+
+    def process_state(self, path):
+        TRACE.append(['I'])
+        return orig[2](self, path)
+
+    def apply_update(self, update, state):
+        r = orig[3](self, update, state)
+        TRACE.append(['A', bool(r)])
+        return r
+
+    def build_topology_views(self, *a, **k):
+        if depth[0] == 0:
+            TRACE.append(['B'])
+        depth[0] += 1
+        try:
+            return orig[4](self, *a, **k)
+        finally:
+            depth[0] -= 1
+    Engine._send_updates, Engine.run_steps, Engine._process_state = send_updates, run_steps, process_state
+    Engine.apply_update, Store.build_topology_views = apply_update, build_topology_views
+    try:
+        yield
+    finally:
+        (Engine._send_updates, Engine.run_steps, Engine._process_state, Engine.apply_update,
+         Store.build_topology_views) = orig
+
+
+def segments(trace):
+    """[(batch size, [steps per layer], [flags], [observed events])] per _send_updates call"""
+    out, cur = [], None
+    for e in trace:
+        if e[0] == 'SU':
+            cur = []
+        elif e[0] == 'SU_END':
+            if cur is not None:
+                out.append(cur)
+            cur = None
+        elif cur is not None:
+            cur.append(e)
+    res = []
+    for seg in out:
+        k = next((i for i, e in enumerate(seg) if e[0] == 'RS'), len(seg))
+        head, tail = seg[:k], seg[k + 1:]
+        batch = sum(1 for e in head if e[0] == 'A')
+        layers, n, seen_a = [], 0, False
+        for e in tail:
+            if e[0] == 'I':
+                if seen_a:
+                    layers.append(n)
+                    n, seen_a = 0, False
+                n += 1
+            elif e[0] == 'A':
+                seen_a = True
+        if n:
+            layers.append(n)
+        flags = [e[1] for e in seg if e[0] == 'A']
+        res.append([batch, layers, flags, [e for e in seg if e[0] != 'RS']])
+    return res
+
+
 def gen_case(rng):
     n = rng.randint(3, 8)
     hist = struct.gen_history(rng, n, allow_bad=False,
@@ -200,7 +286,8 @@ def run_impl(c):
     init = {'A': {'ref': {'s': {'n': 100}}, 'fix': {'s': {'n': 5}}}, 'B': {'ref': {'s': {'n': 200}}}}
     out = {'status': 'ok'}
     try:
-        with contextlib.redirect_stdout(io.StringIO()):
+        del TRACE[:]
+        with contextlib.redirect_stdout(io.StringIO()), instrument():
             CTX['tick'] = -1
             eng = Engine(processes=processes, steps=steps, flow=flow, topology=topology, initial_state=init,
                          display_info=False)
@@ -214,7 +301,23 @@ def run_impl(c):
     finally:
         CTX['eng'] = None
     out['log'] = [list(x) for x in LOG]
+    out['sends'] = segments(TRACE)
     return out
+
+
+IMPORTS = 'From Viv Require Import Model.Views Corr.Viewsc.'
+CHECK_FN = 'check_case_all'
+BAD_TERM = '[VSend 0 [] [] [SBuild]]'
+
+
+def render(c, ob):
+    """one term per case: the list of its _send_updates calls"""
+    from harness.common import cnat, clist, cbool
+
+    def ev(e):
+        return {'I': 'SInvoke', 'B': 'SBuild'}.get(e[0]) or '(SApply %s)' % cbool(e[1])
+    return clist(['(VSend %s %s %s %s)' % (cnat(b), clist([cnat(k) for k in ls]), clist([cbool(f) for f in fl]),
+                                          clist([ev(e) for e in obs])) for b, ls, fl, obs in ob['sends']])
 
 
 def oracle(c, ob, rng):
